@@ -158,6 +158,15 @@ func (ex *Executor) evalIdent(name string, env *SpecEnv) (Val, error) {
 		return v, nil
 	}
 	if env.fr != nil {
+		if l, ok := env.fr.locals[name]; ok && !l.isAddr {
+			// a variable that lives in a memory cell (named result, address-taken or captured local) always denotes
+			// the current content of its cell, whatever the last debug reference was
+			if a := allocNamed(env.fr.fn, name); a != nil {
+				if pv, ok := env.fr.vals[a]; ok {
+					env.fr.locals[name] = localRef{v: pv, isAddr: true}
+				}
+			}
+		}
 		if l, ok := env.fr.locals[name]; ok {
 			if l.isAddr {
 				if env.heapOverride != nil {
@@ -789,6 +798,21 @@ func (ex *Executor) evalCallSpec(e *SExpr, env *SpecEnv) (Val, error) {
 			return Val{}, err
 		}
 		return specBool(Select(Select(env.heapArr("M.dom", SAAIB), m.T), k.T)), nil
+	case "substr":
+		// s[lo:hi] of a string
+		a, err := argv(0)
+		if err != nil {
+			return Val{}, err
+		}
+		lo, err := argv(1)
+		if err != nil {
+			return Val{}, err
+		}
+		hi, err := argv(2)
+		if err != nil {
+			return Val{}, err
+		}
+		return Val{T: App("substr", SInt, a.T, lo.T, hi.T), Ty: types.Typ[types.String]}, nil
 	case "mapget":
 		// value stored under key k (Int-sorted values: pointers, slices, strings, numbers)
 		m, err := argv(0)
@@ -1143,4 +1167,20 @@ func (ex *Executor) VerifyLemma(lem *Lemma) {
 		}
 		ex.addObl(st, "lemma", fmt.Sprintf("%s#%d", lem.Name, i), v.T, cl.String(), nil)
 	}
+}
+
+// allocNamed: the unique Alloc of fn that holds source variable `name` (nil if none or ambiguous)
+func allocNamed(fn *ssa.Function, name string) *ssa.Alloc {
+	var found *ssa.Alloc
+	for _, b := range fn.Blocks {
+		for _, ins := range b.Instrs {
+			if a, ok := ins.(*ssa.Alloc); ok && a.Comment == name {
+				if found != nil {
+					return nil
+				}
+				found = a
+			}
+		}
+	}
+	return found
 }
